@@ -46,14 +46,19 @@ theorem mdcFill_spec (st : MDCR) (u : Under) (hle : st.trailer.length ≤ mdcTra
   | _ n ih =>
     rw [mdcFill]
     by_cases hlt : st.trailer.length < mdcTrailerSize
-    · simp only [hlt, ↓reduceDIte]
+    · rw [dif_pos hlt]
       by_cases hE : (u.read (mdcTrailerSize - st.trailer.length)).2.1 = true
       · have hd : u.data = [] := (Under.read_split u _).2.2.1.1 hE
         have hne : (st.trailer.length != mdcTrailerSize) = true := by
           simp only [bne_iff_ne, ne_eq]; omega
-        simp only [hE, ↓reduceDIte, ↓reduceIte, hne]
-        exact ⟨[], by simp, by simp [hd], rfl, by intro h; cases h, fun _ => ⟨hd, hlt⟩⟩
-      · simp only [hE, Bool.false_eq_true, ↓reduceDIte, ↓reduceIte]
+        rw [dif_pos hE, if_pos hne]
+        refine ⟨[], ?_, ?_, ?_, ?_, ?_⟩
+        · simp
+        · simp [hd]
+        · rfl
+        · intro h; cases h
+        · intro _; exact ⟨hd, hlt⟩
+      · rw [dif_neg hE]
         have hflag : (u.read (mdcTrailerSize - st.trailer.length)).2.1 = false := by simpa using hE
         have hpos := Under.read_pos u _ (by omega) hflag
         have hsp := Under.read_split u (mdcTrailerSize - st.trailer.length)
@@ -66,8 +71,13 @@ theorem mdcFill_spec (st : MDCR) (u : Under) (hle : st.trailer.length ≤ mdcTra
         refine ⟨(u.read (mdcTrailerSize - st.trailer.length)).1 ++ c, ?_, ?_, h3, h4, h5⟩
         · rw [h1, List.append_assoc]
         · rw [List.append_assoc, h2, hsp.1]
-    · simp only [hlt, ↓reduceDIte]
-      exact ⟨[], by simp, by simp, rfl, fun _ => ⟨by omega, rfl, rfl⟩, by intro h; exact absurd rfl h⟩
+    · rw [dif_neg hlt]
+      refine ⟨[], ?_, ?_, ?_, ?_, ?_⟩
+      · simp
+      · simp
+      · rfl
+      · intro _; exact ⟨by show st.trailer.length = _; omega, rfl, rfl⟩
+      · intro h; exact absurd rfl h
 
 /-- the invariant of the reader: what has been delivered (= hashed), the 22-byte window and what the
     underlying reader still holds make up the whole body `D` -/
@@ -89,7 +99,7 @@ theorem mdcRead_inv (D : Bytes) (st : MDCR) (u : Under) (del : Bytes) (m : Nat)
   simp only [hI.noerr, Bool.false_eq_true, ↓reduceIte]
   by_cases he : st.eof = true
   · simp only [he, ↓reduceIte, List.append_nil]
-    exact ⟨hI, by simp, fun _ => he⟩
+    exact ⟨hI, by simp, fun _ => (by first | exact he | trivial)⟩
   · simp only [he, Bool.false_eq_true, ↓reduceIte]
     obtain ⟨c, f1, f2, f3, f4, f5⟩ := mdcFill_spec st u hI.tlen
     by_cases hf : ((mdcFill st u).2.2 != MErr.none) = true
@@ -131,9 +141,9 @@ theorem mdcRead_inv (D : Bytes) (st : MDCR) (u : Under) (del : Bytes) (m : Nat)
           simp only [List.length_append, List.length_drop]; omega
         by_cases hn2 : ((mdcFill st u).2.1.readFull m).1.length < m
         · simp only [hn2, ↓reduceIte]
-          refine ⟨⟨herr1, by simp [hhash1], hsplit2, by omega, fun _ => hlen2, fun _ => ⟨r3 hn2, hlen2⟩⟩, by simp, fun _ => rfl⟩
+          refine ⟨⟨herr1, by simp [hhash1], hsplit2, Nat.le_of_eq hlen2, fun _ => hlen2, fun _ => ⟨r3 hn2, hlen2⟩⟩, by simp, fun _ => (by first | rfl | trivial)⟩
         · simp only [hn2, ↓reduceIte]
-          refine ⟨⟨herr1, by simp [hhash1], hsplit2, by omega, fun _ => hlen2, ?_⟩, by simp, by intro h; cases h⟩
+          refine ⟨⟨herr1, by simp [hhash1], hsplit2, Nat.le_of_eq hlen2, fun _ => hlen2, ?_⟩, by simp, by intro h; cases h⟩
           intro h; rw [g2] at h; exact absurd h he
       · simp only [hm, ↓reduceIte]
         obtain ⟨s1, s2, s3, s4⟩ := Under.read_split (mdcFill st u).2.1 (m - mdcTrailerSize)
@@ -154,9 +164,9 @@ theorem mdcRead_inv (D : Bytes) (st : MDCR) (u : Under) (del : Bytes) (m : Nat)
           have hd1 : (mdcFill st u).2.1.data = [] := s3.1 hfl
           have hd2 : ((mdcFill st u).2.1.read (m - mdcTrailerSize)).2.2.data = [] := by
             rw [(s4 hfl).2]; exact hd1
-          refine ⟨⟨herr1, by simp [hhash1], hsplit2, by omega, fun _ => hlen2, fun _ => ⟨hd2, hlen2⟩⟩, by simp, fun _ => rfl⟩
+          refine ⟨⟨herr1, by simp [hhash1], hsplit2, Nat.le_of_eq hlen2, fun _ => hlen2, fun _ => ⟨hd2, hlen2⟩⟩, by simp, fun _ => (by first | rfl | trivial)⟩
         · simp only [hfl, Bool.false_eq_true, ↓reduceIte]
-          refine ⟨⟨herr1, by simp [hhash1], hsplit2, by omega, fun _ => hlen2, ?_⟩, by simp, by intro h; cases h⟩
+          refine ⟨⟨herr1, by simp [hhash1], hsplit2, Nat.le_of_eq hlen2, fun _ => hlen2, ?_⟩, by simp, by intro h; cases h⟩
           intro h; rw [g2] at h; exact absurd h he
 
 /-- `Close`'s drain loop reaches EOF (never an error) and keeps the invariant -/
@@ -168,12 +178,12 @@ theorem mdcDrain_inv (D : Bytes) (st : MDCR) (u : Under) (del : Bytes)
   | _ n ih =>
     rw [mdcDrain]
     by_cases he : st.eof = true
-    · simp only [he, ↓reduceIte, List.append_nil]; exact ⟨rfl, he, hI⟩
+    · rw [if_pos he]; exact ⟨rfl, he, by simpa using hI⟩
     · simp only [he, Bool.false_eq_true, ↓reduceIte]
       obtain ⟨i1, i2, i3⟩ := mdcRead_inv D st u del 1024 hI hD
       split
       · rename_i h; exact absurd h i2
-      · rename_i h; exact ⟨rfl, i3 h, i1⟩
+      · rename_i h; exact ⟨by first | rfl | trivial, i3 h, i1⟩
       · rename_i h
         have hp := mdcRead_progress st u 1024 (by decide) h
         obtain ⟨j1, j2, j3⟩ := ih _ (by subst hl; exact hp) _ _ _ i1 rfl
@@ -187,9 +197,11 @@ theorem Inv.at_eof {D : Bytes} {st : MDCR} {u : Under} {del : Bytes} (hI : Inv D
   have hs := hI.split
   rw [hd, List.append_nil] at hs
   have hlen : D.length = del.length + mdcTrailerSize := by rw [← hs]; simp [ht]
+  have hl2 : D.length - mdcTrailerSize = del.length := by omega
+  rw [hl2, ← hs]
   constructor
-  · rw [← hs, hlen]; simp
-  · rw [← hs, hlen]; simp
+  · simp
+  · simp
 
 theorem mdcCheck_congr (H : Bytes → Bytes) (pre : Bytes) (a b : MDCR)
     (h1 : a.trailer = b.trailer) (h2 : a.hashed = b.hashed) : mdcCheck H pre a = mdcCheck H pre b := by
